@@ -9,6 +9,7 @@ import (
 	"io/fs"
 	"io/ioutil"
 	"os"
+	"path/filepath"
 	"reflect"
 	"runtime"
 	"strings"
@@ -251,13 +252,38 @@ func unmarshalJsonFile(path string, i interface{}) (err error) {
 	return
 }
 
+// tmpPath returns the path of the temporary file used to write path. Its
+// name starts with a dot so it is never taken for an object file
+func tmpPath(path string) string {
+	return filepath.Join(filepath.Dir(path), fmt.Sprintf(".%s.tmp", filepath.Base(path)))
+}
+
+// writeReader writes r to path. The data is written to a temporary file in the
+// same directory which is renamed to path once complete, so that whenever the
+// process stops path holds either its previous content or the new one, and
+// never a truncated file.
 func writeReader(path string, r io.Reader, perms fs.FileMode, compress bool) (err error) {
-	var out *os.File
-	var w io.WriteCloser
 
 	if compress && !strings.HasSuffix(path, compressedExtension) {
 		path = fmt.Sprintf("%s%s", path, compressedExtension)
 	}
+
+	tmp := tmpPath(path)
+	if err = writeFile(tmp, r, perms, compress); err != nil {
+		os.Remove(tmp)
+		return
+	}
+
+	if err = os.Rename(tmp, path); err != nil {
+		os.Remove(tmp)
+	}
+
+	return
+}
+
+func writeFile(path string, r io.Reader, perms fs.FileMode, compress bool) (err error) {
+	var out *os.File
+	var w io.WriteCloser
 
 	if out, err = os.OpenFile(path, os.O_CREATE|os.O_TRUNC|os.O_RDWR, perms); err != nil {
 		return
